@@ -14,7 +14,16 @@ RULE = ("Connected oriented triangulated surfaces built by the harness: grids, c
         "subdivides every base to 300-1500 faces, cut_small stays <= ~200), then random face "
         "deletions (new border loops), edge flips, 1-3 splits, triangle edge splits; largest face component kept; optional jitter "
         "(un-jittered regular grids keep exact shortest-path ties; 1 small case in 12 is a 'tie-trap' torus lattice with one exact "
-        "unequal-sided parallelogram between three singular vertices, where paths computed from different sources tie; 1 in 12 is a 'crease-tie' bent sheet of equilateral triangles with two singular vertices one above the other next to the fold), optional roof-like folds (creases for the feature detector), "
+        "unequal-sided parallelogram between three singular vertices, where paths computed from different sources tie; 1 in 12 is a 'crease-tie' bent sheet of equilateral triangles with two singular vertices one above the other next to the fold; "
+        "1 in 5 of the others - in cut_large too - is a 'lattice-tie' sheet: staggered (rectangular outline) or sheared (parallelogram) lattice of triangles, row height "
+        "sqrt(3)/2 / 0.75 / 1 / 1.25, in which every vertex has two equally distant neighbours in the row below and above, bent along 0-2 rows by "
+        "+-75 / 90 / 120 degrees (sharp creases) or +-45 degrees (a crease only where its edges - the whole row or a piece that does not reach the border - are declared hard), 0-2 faces "
+        "removed (inner border loops), relabelled 2 times in 3, scaled by 1 / 2^-10 / 2^10 (ties stay exact); its singular vertices are 1-3 groups entangled through exactly tied "
+        "shortest paths towards a target set = border + creases / the border where it is nearer than every crease / the creases where they are nearer / one vertex: a first "
+        "vertex 1-3 edges from the target with two equally short ways on, joined by vertices ON its shortest paths ('cone'), vertices whose paths continue through the same next vertex "
+        "('shared'), or a random walk over those relations and same-distance neighbours, now and then a vertex of the target set itself. On every other surface the singularity mode "
+        "'on-shortest-paths' (1 in 12) builds the same groups towards the border (closed surface: towards one vertex); labels 'ties:...' measure on the realised case how often a singular vertex has tied "
+        "shortest paths ending on two different border / feature-graph vertices, 1-2 edges away, with another singular vertex on them), optional roof-like folds (creases for the feature detector), "
         "vertex/face relabelling (base bent_sheet = equilateral sheet folded by 90 degrees along a row: crease + exact ties); coincident positions (the vertex opposite an interior edge copied onto the other opposite "
         "vertex for 1-4 edges = adjacent faces with one barycentre, or the whole mesh collapsed onto 1-4 positions; the feature "
         "detector is dropped when a triangle has (near) zero area). Singularity sets: empty, one, two adjacent, k random, border only, mixed, a vertex with all its "
@@ -271,6 +280,157 @@ def tie_trap(nu, nw, pi, pj, H):
     return V, F, idx
 
 
+_EXACT_DIR = {0: (1.0, 0.0), 90: (0.0, 1.0), 180: (-1.0, 0.0), 270: (0.0, -1.0)}
+SHARP_TURN = 60.0        # degrees: the detector flags an edge whose face normals have a dot product < 0.5 (C15's subject)
+
+
+def lattice_sheet(n, m, kind, h, folds):
+    """n x m cells of triangles on a lattice full of exact distance ties: every vertex has two equally distant neighbours in the
+    row below and in the row above (x differs by +-1/2). kind "staggered": odd rows shifted by 1/2 (rectangular outline with
+    zig-zag sides, alternating diagonals); kind "sheared": row j shifted by j/2 (parallelogram outline, one diagonal direction).
+    Rows are h apart along a profile in the (y,z) plane that turns by `turn` degrees at each row of folds = [(row, turn)]:
+    a crease along that row. Returns V, F, idx(i,j)."""
+    turn = dict(folds)
+    ang, y, z, prof = 0, 0.0, 0.0, []
+    for j in range(m + 1):
+        prof.append((y, z))
+        ang = (ang + turn.get(j, 0)) % 360
+        c, s_ = _EXACT_DIR.get(ang) or (math.cos(math.radians(ang)), math.sin(math.radians(ang)))
+        y += h * c; z += h * s_
+    idx = lambda i, j: j * (n + 1) + i
+    V = [[i + (0.5 * (j % 2) if kind == "staggered" else 0.5 * j), prof[j][0], prof[j][1]] for j in range(m + 1) for i in range(n + 1)]
+    F = []
+    for j in range(m):
+        for i in range(n):
+            a, b, c, d = idx(i, j), idx(i + 1, j), idx(i, j + 1), idx(i + 1, j + 1)
+            F += [[a, b, c], [b, d, c]] if (kind == "sheared" or j % 2 == 0) else [[a, b, d], [a, d, c]]
+    return V, F, idx
+
+
+def tie_dag(V, ref, T):
+    """Distances (edge lengths) from every vertex to the vertex set T, and for every vertex the neighbours through which a
+    shortest path to T continues (several = an exact - up to 1e-12 relative - tie). Pure harness code.
+    Returns dist, down (vertex -> sorted list of next vertices), hops (fewest edges of a shortest path to T)."""
+    import heapq
+    A = np.array(V, dtype=float)
+    L = {}
+    for (a, b) in ref.uedges:
+        L[(a, b)] = L[(b, a)] = float(np.linalg.norm(A[a] - A[b]))
+    dist = {v: math.inf for v in range(len(V))}
+    heap = []
+    for t in T:
+        dist[t] = 0.0
+        heap.append((0.0, t))
+    heapq.heapify(heap)
+    done = set()
+    while heap:
+        d, v = heapq.heappop(heap)
+        if v in done:
+            continue
+        done.add(v)
+        for w in ref.v2v[v]:
+            dw = d + L[(v, w)]
+            if dw < dist[w]:
+                dist[w] = dw
+                heapq.heappush(heap, (dw, w))
+    fin = [d for d in dist.values() if d < math.inf]
+    tol = 1e-12 * (max(fin) if fin and max(fin) > 0 else 1.0)
+    down, hops = {}, {}
+    for v in sorted(dist, key=lambda v: (dist[v], v)):
+        if dist[v] == 0.0 or dist[v] == math.inf:
+            down[v] = []; hops[v] = 0
+            continue
+        down[v] = sorted(w for w in ref.v2v[v] if dist[w] < dist[v] and abs(dist[w] + L[(v, w)] - dist[v]) <= tol)
+        hops[v] = 1 + min((hops[w] for w in down[v] if w in hops), default=0)
+    return dist, down, hops
+
+
+def tie_singularities(draw, ref, T, down, hops, k, eligible=None):
+    """Singular vertices entangled through exactly tied shortest paths towards the vertex set T. The first one has two equally
+    short ways on and is mostly 1-3 edges from T. Pattern "cone": it is joined by 1..k-1 of the vertices its shortest paths
+    run through (one singular vertex on the path of another one); "shared": by vertices whose shortest paths continue through
+    the same next vertex; "walk": each further one is related to one already chosen - next vertex of a shortest path, a
+    vertex whose path continues through it, one sharing its next vertex, or a neighbour as many edges from T."""
+    T = set(T)
+    nV = ref.nV
+    up = defaultdict(list)
+    for v in down:
+        for w in down[v]:
+            up[w].append(v)
+    amb = sorted(v for v in down if v not in T and len(down[v]) >= 2)
+    if eligible is not None:
+        amb = [v for v in amb if v in eligible] or amb          # where the first vertex may be
+    pattern = draw(st.sampled_from(["cone", "cone", "cone", "shared", "walk", "walk"]))
+    want = draw(st.sampled_from([2, 2, 2, 3, 3] if pattern == "cone" else [1, 1, 2, 2, 2, 3, 3, 0]))   # edges to T (0: any)
+    pool = ([v for v in amb if hops[v] == want] or [v for v in amb if 2 <= hops[v] <= 3] or amb
+            or sorted(set(range(nV)) - T) or list(range(nV)))
+    S = [pool[_pick(draw, len(pool))]]
+    if pattern == "cone":
+        below, stack = [], list(down[S[0]])
+        while stack:
+            x = stack.pop()
+            if x not in T and x not in below:
+                below.append(x); stack += down[x]
+        below = sorted(below, key=lambda x: (-hops[x], x))          # nearest to the first one first
+        take = [x for x in below if draw(st.booleans())][:k - 1]
+        S += take or below[:1]
+    elif pattern == "shared":
+        for x in down[S[0]]:
+            S += [w for w in sorted(up[x]) if w not in S and w not in T and draw(st.booleans())][:max(0, k - len(S))]
+    for _ in range(3 * (k - 1)):
+        if len(S) >= k:
+            break
+        c = S[_pick(draw, len(S))]
+        rel = draw(st.sampled_from(["down", "down", "up", "up", "shared-next", "side"]))
+        if rel == "down":
+            cand = list(down[c])
+        elif rel == "up":
+            cand = list(up[c])
+        elif rel == "shared-next":
+            cand = [w for x in down[c] for w in up[x]]
+        else:
+            cand = [w for w in ref.v2v[c] if hops.get(w) == hops.get(c)]
+        cand = sorted(set(cand) - set(S))
+        if draw(st.integers(0, 4)) > 0:
+            cand = [w for w in cand if w not in T]                # now and then a singular vertex ON the target set
+        if cand:
+            S.append(cand[_pick(draw, len(cand))])
+    return S
+
+
+def tie_classes(V, ref, S, T, what):
+    """labels (evidence only) measured on the realised case: singular vertices with exactly tied shortest paths to T that end on
+    different vertices of T, and singular vertices lying on such paths of another one"""
+    T = set(int(t) for t in T)
+    S = [int(s_) for s_ in S if int(s_) not in T]
+    if not T or not S:
+        return []
+    _, down, hops = tie_dag(V, ref, sorted(T))
+    memo = {}
+
+    def reach(v):            # (vertices of T where the shortest paths of v end, vertices on those paths) - iterative DFS
+        if v in memo:
+            return memo[v]
+        order, stack, seen = [], [v], {v}
+        while stack:
+            x = stack.pop(); order.append(x)
+            for w in down.get(x, []):
+                if w not in seen:
+                    seen.add(w); stack.append(w)
+        memo[v] = ({x for x in order if x in T}, set(order) - {v})
+        return memo[v]
+    out = set()
+    for s_ in S:
+        ends, on = reach(s_)
+        if len(ends) >= 2:
+            out.add(f"ties:singularity-with-tied-shortest-paths-ending-on-2+-{what}-vertices")
+            if hops.get(s_, 9) <= 2:
+                out.add(f"ties:...at-1-2-edges-from-the-{what}")
+            if any(t in on for t in S if t != s_):
+                out.add(f"ties:...and-another-singularity-on-those-paths-to-the-{what}")
+    return sorted(out)
+
+
 RESULTS = ["output_mesh", "cut_edges", "cut_graph", "cut_adj", "ref_vertex"]
 
 
@@ -311,13 +471,80 @@ def cut_case(draw, big=False, twice=False):
         crease = [j * (n + 1) + i, (j + 1) * (n + 1) + i]
         trap = crease                      # same treatment: exact geometry kept (no coincident positions, scale 1)
         tags = ["base=crease-tie"]
+    lat = None
+    if trap is None and draw(st.integers(0, 4)) == 0:
+        # lattice sheets full of exact ties, bent along 0-2 rows (creases), optionally with 1-2 faces removed (inner border
+        # loops); the singular vertices are entangled through tied shortest paths towards the border / the creases / both /
+        # one vertex (see tie_singularities)
+        kind = draw(st.sampled_from(["staggered", "staggered", "sheared"]))
+        n, m = (10 + _pick(draw, 15), 10 + _pick(draw, 15)) if big else (3 + _pick(draw, 7), 5 + _pick(draw, 7))
+        h = draw(st.sampled_from([math.sqrt(3) / 2, 1.0, 1.0, 0.75, 1.25]))
+        nf = draw(st.sampled_from([0, 1, 1, 1, 1, 2, 2]))
+        rows = [1 + _pick(draw, m - 1)] if nf else []
+        if nf == 2:
+            rows = sorted(set(rows + [1 + (rows[0] + _pick(draw, m - 2)) % (m - 1)]))
+        folds, tot = [], 0
+        for r in rows:
+            t = draw(st.sampled_from([90, 90, -90, 75, 120, -120, 45, -45]))
+            if abs(tot + t) > 180:
+                t = -t
+            tot += t
+            folds.append((r, t))
+        V, F, idx = lattice_sheet(n, m, kind, h, folds)
+        crease_v, lat_hard = set(), []
+        for (r, t) in folds:
+            if abs(t) > SHARP_TURN:
+                crease_v |= {idx(i, r) for i in range(n + 1)}
+            else:
+                # a mild fold is a feature only where its edges are declared hard: the whole row or a piece of it
+                i0, i1 = 0, n
+                if draw(st.booleans()):
+                    i0 = draw(st.integers(0, n - 1)); i1 = draw(st.integers(i0 + 1, n))
+                lat_hard += [[idx(i, r), idx(i + 1, r)] for i in range(i0, i1)]
+                crease_v |= {idx(i, r) for i in range(i0, i1 + 1)}
+        for _ in range(draw(st.sampled_from([0, 0, 0, 1, 2]))):
+            k = _pick(draw, len(F))
+            F2 = F[:k] + F[k + 1:]
+            r2 = SurfRef(len(V), F2)
+            if r2.validate() is None and r2.n_face_components() == 1 and len(set(v for f in F2 for v in f)) == len(V):
+                F = F2
+        ref = SurfRef(len(V), F)
+        bvs = set(ref.border_vertices())
+        tgt = draw(st.sampled_from(["features", "features", "features", "border", "border", "border", "crease", "vertex"]))
+        if tgt == "crease" and not crease_v:
+            tgt = "border"
+        T = {"features": bvs | crease_v, "border": bvs, "crease": crease_v, "vertex": {_pick(draw, len(V))}}[tgt]
+        dist, down, hops = tie_dag(V, ref, sorted(T))
+        eligible = None
+        if tgt in ("border", "crease") and crease_v - bvs:
+            # ties towards the border count where no crease is as near as the border (and the other way round)
+            other, _, _ = tie_dag(V, ref, sorted((crease_v - bvs) if tgt == "border" else bvs))
+            eligible = {v for v in dist if dist[v] < other[v] * (1 - 1e-9)}
+        lat_S = []
+        for _ in range(draw(st.sampled_from([1, 1, 2, 2, 3]))):          # independent groups at different places
+            lat_S += tie_singularities(draw, ref, T, down, hops, draw(st.sampled_from([2, 2, 2, 3, 3, 4])), eligible)
+        if tgt == "vertex":
+            lat_S = lat_S + sorted(T)
+        if draw(st.integers(0, 2)) > 0:
+            V, F, perm = G.relabel(V, F, draw(st.integers(0, 10000)), reverse=draw(st.booleans()))
+            lat_S = [perm[v] for v in lat_S]
+            lat_hard = [[perm[a], perm[b]] for a, b in lat_hard]
+        lat = {"S": lat_S, "hard": lat_hard, "creases": bool(crease_v)}
+        tags = ["base=lattice-tie", "lattice=" + kind, "tie-target=" + tgt, f"lattice-folds={len(folds)}"]
     ref = SurfRef(len(V), F)
+    if lat is not None and (ref.validate() is not None or ref.n_face_components() != 1):
+        raise AssertionError("C16 generator produced an invalid lattice sheet")
     nV = len(V)
     bv = sorted(ref.border_vertices())
     iv = sorted(set(range(nV)) - set(bv))
     mode = draw(st.sampled_from(["random", "none", "one", "adjacent", "adjacent", "random", "random", "border", "mixed",
-                                 "cluster", "all"]))
+                                 "cluster", "all", "on-shortest-paths"]))
     S = []
+    if mode == "on-shortest-paths" and trap is None and lat is None:
+        # any surface: singular vertices on each other's shortest paths to the border (or, on a closed surface, to one vertex)
+        T = set(bv) or {_pick(draw, nV)}
+        _, down, hops = tie_dag(V, ref, sorted(T))
+        S = tie_singularities(draw, ref, T, down, hops, draw(st.integers(2, 4))) + ([] if bv else sorted(T))
     if mode == "one":
         S = [_pick(draw, nV)]
     elif mode == "adjacent":
@@ -341,6 +568,9 @@ def cut_case(draw, big=False, twice=False):
     if trap is not None:
         mode = "crease-tie" if crease else "tie-trap"
         S = trap + ([_pick(draw, nV)] if draw(st.integers(0, 5)) == 0 else [])
+    if lat is not None:
+        mode = "lattice-tie"
+        S = lat["S"] + ([_pick(draw, nV)] if draw(st.integers(0, 5)) == 0 else [])
     # distinct, in a drawn order (the order is an input of the spanning-tree construction)
     S = list(dict.fromkeys(int(s) for s in S))
     if trap is not None and len(S) == 3 and draw(st.booleans()):
@@ -354,7 +584,7 @@ def cut_case(draw, big=False, twice=False):
     S = list(dict.fromkeys(S))
     # coincident positions: the property is topological, the geometry only weights the paths
     degen = draw(st.sampled_from(["no", "no", "no", "no", "dup-opposite", "dup-opposite", "collapse"]))
-    if trap is not None:
+    if trap is not None or lat is not None:
         degen = "no"
     if degen == "dup-opposite":
         inner = sorted(e for e in ref.uedges if not ref.edge_on_border(*e))
@@ -396,8 +626,14 @@ def cut_case(draw, big=False, twice=False):
         feat = "detect" if draw(st.integers(0, 4)) > 0 else feat
     elif trap is not None and feat != "only_border" and draw(st.integers(0, 3)) > 0:
         feat = "none"
+    if lat is not None and draw(st.integers(0, 4)) > 0:
+        feat = "detect"
+    if lat is not None and lat["hard"] and feat != "none":
+        feat = "detect+hard"
     hard = []
-    if feat == "detect+hard":
+    if lat is not None:
+        hard = [list(e) for e in lat["hard"]] if feat == "detect+hard" else []
+    elif feat == "detect+hard":
         inner = sorted(e for e in ref.uedges if not ref.edge_on_border(*e))
         if inner:
             hard = [list(inner[_pick(draw, len(inner))]) for _ in range(draw(st.integers(1, 6)))]
@@ -412,8 +648,10 @@ def cut_case(draw, big=False, twice=False):
     sc = draw(st.sampled_from([1.0, 1.0, 1.0, 1.0, 1e-3, 1e-6, 1e3, 1e6]))
     if trap is not None:
         sc = 1.0                   # the ties must stay exact
+    if lat is not None:
+        sc = draw(st.sampled_from([1.0, 1.0, 2.0 ** -10, 2.0 ** 10]))       # powers of two keep them exact
     # data far from the origin compared with its size (translation by 1e3 .. 1e6 times the extent)
-    far_off = draw(st.sampled_from([0.0, 0.0, 0.0, 0.0, 1e3, 1e6])) if trap is None else 0.0
+    far_off = draw(st.sampled_from([0.0, 0.0, 0.0, 0.0, 1e3, 1e6])) if (trap is None and lat is None) else 0.0
     if far_off:
         A = np.array(V, dtype=float) * sc
         ext = float(np.max(np.ptp(A, axis=0))) or 1.0
@@ -675,7 +913,16 @@ def start_cut(ctx, M, m, fd, sing, pre, verbose=False, rerun="no"):
     fd_before = None if fd is None else (set(fd.feature_edges), set(fd.feature_vertices))
     sink = io.StringIO()
     with contextlib.redirect_stdout(sink):
-        ok, cutter = ctx.call(pre + "cutter:init", M.processing.SingularityCutter, m, sing, features=fd, verbose=verbose)
+        if sing_before is None or isinstance(sing, (set, frozenset, range)):
+            # the docstring says "singularities (list)"; the constructor copies any other iterable element by element. A library that
+            # REJECTS such a form (TypeError / ValueError) is within its rights; accepting it and cutting for other vertices is not.
+            try:
+                ok, cutter = True, M.processing.SingularityCutter(m, sing, features=fd, verbose=verbose)
+            except (TypeError, ValueError):
+                ctx.label("singularities-form-rejected")
+                return None
+        else:
+            ok, cutter = ctx.call(pre + "cutter:init", M.processing.SingularityCutter, m, sing, features=fd, verbose=verbose)
         if ok:
             ok, _ = ctx.call(pre + "cutter:run", cutter if rerun == "call-run" else cutter.run)
         if ok and rerun != "no":
@@ -834,6 +1081,13 @@ def fn(case, ctx):
         ctx.label("tie-trap")
     if "base=crease-tie" in case["tags"]:
         ctx.label("crease-tie")
+    if "base=lattice-tie" in case["tags"]:
+        ctx.label("lattice-tie", *["lattice-tie:" + t for t in case["tags"] if t.startswith(("lattice", "tie-target"))])
+    if case.get("mode") == "on-shortest-paths":
+        ctx.label("singus=on-each-other's-shortest-paths")
+    measure_ties = "base=lattice-tie" in case["tags"] or case.get("mode") in ("on-shortest-paths", "crease-tie")
+    if measure_ties and bvin:
+        ctx.label(*tie_classes(V, rin, S, bvin, "border"))
     nun = len(V) - len(set(v for f in F for v in f))
     if nun:
         ctx.label("unused-vertices")
@@ -870,6 +1124,9 @@ def fn(case, ctx):
     ok, fd = make_detector(ctx, M, m, feat, verbose=bool(case.get("detector_verbose")))
     if not ok:
         return
+    if measure_ties and fd is not None and isinstance(fd.feature_vertices, set) and set(fd.feature_vertices) - bvin:
+        # evidence only: ties towards what the detector reports as feature vertices (border + creases)
+        ctx.label(*tie_classes(V, rin, S, [v for v in fd.feature_vertices if isinstance(v, (int, np.integer)) and 0 <= v < len(V)], "feature-graph"))
     form = case["singu_form"]
     if form == "attribute":
         sing = m.vertices.create_attribute("singuls", int)
